@@ -435,19 +435,19 @@ pub fn exec(s: &Script, st: &mut Stats) -> Result<RunInfo, Violation> {
             return viol(cl, format!("zlib output violates '{}': header {:02x} {:02x}, trailer {:#010x}, adler32 of decoded data {:#010x}", rule, v.cmf, v.flg, v.adler_stored, v.adler_calc));
         }
         other => {
-            let cl = if clauses & PC_C10 != 0 { "C10.accepted_by_reference_decoder" } else if clauses & PC_C09 != 0 { "C09.stream_valid" } else { "C02.output_is_one_valid_stream" };
-            return viol(cl, format!("reference decoder verdict {:?} at bit {} of {} output bytes ({} input bytes consumed)", other, v.at_bit, run.out.len(), run.consumed));
+            let cl = if clauses & PC_C10 != 0 { "C10.accepted_by_reference_decoder".to_string() } else if clauses & PC_C09 != 0 { "C09.stream_valid".to_string() } else { format!("{}.output_is_one_valid_stream", cp) };
+            return viol(&cl, format!("reference decoder verdict {:?} at bit {} of {} output bytes ({} input bytes consumed)", other, v.at_bit, run.out.len(), run.consumed));
         }
     }
     if v.out != plain {
         let nn = v.out.len().min(plain.len());
         let idx = (0..nn).find(|&i| v.out[i] != plain[i]).unwrap_or(nn);
-        let cl = if clauses & PC_C10 != 0 { "C10.decodes_to_input" } else if clauses & PC_C09 != 0 { "C09.stream_valid" } else { "C02.decodes_to_input" };
-        return viol(cl, format!("output decodes to {} bytes, input consumed {} bytes, first difference at {}", v.out.len(), plain.len(), idx));
+        let cl = if clauses & PC_C10 != 0 { "C10.decodes_to_input".to_string() } else if clauses & PC_C09 != 0 { "C09.stream_valid".to_string() } else { format!("{}.decodes_to_input", cp) };
+        return viol(&cl, format!("output decodes to {} bytes, input consumed {} bytes, first difference at {}", v.out.len(), plain.len(), idx));
     }
     if v.consumed != run.out.len() {
-        let cl = if clauses & PC_C10 != 0 { "C10.exactly_one_stream" } else { "C02.exactly_one_stream" };
-        return viol(cl, format!("stream ends after {} bytes but {} bytes were emitted", v.consumed, run.out.len()));
+        let cl = if clauses & PC_C10 != 0 { "C10.exactly_one_stream".to_string() } else { format!("{}.exactly_one_stream", cp) };
+        return viol(&cl, format!("stream ends after {} bytes but {} bytes were emitted", v.consumed, run.out.len()));
     }
     if clauses & PC_C09 != 0 && eff.zlib {
         // explicit producer-side clauses (also implied by the decode above)
